@@ -872,3 +872,67 @@ M("C15-new-live-attribute-unsaved", "C15", "R15.4", TK,
   """            self.remaining_work_amount = self.remaining_work_amount - work_amount_progress""",
   """            self.remaining_work_amount = self.remaining_work_amount - work_amount_progress
             self.last_progress = work_amount_progress""")
+
+# ---------------------------------------------------------------------------------------- C02
+M("C02-perform-also-ready", "C02", "R2.2", TK,
+  """        if self.state == BaseTaskState.WORKING:
+            work_amount_progress = 0.0""",
+  """        if self.state == BaseTaskState.WORKING or self.state == BaseTaskState.READY:
+            work_amount_progress = 0.0""")
+M("C02-plus-for-minus", "C02", "R2.2", TK,
+  """            self.remaining_work_amount = self.remaining_work_amount - work_amount_progress""",
+  """            self.remaining_work_amount = self.remaining_work_amount + work_amount_progress""")
+M("C02-drop-facility-factor", "C02", "R2.3", TK,
+  """                    work_amount_progress += w_progress * f_progress""",
+  """                    work_amount_progress += w_progress""")
+M("C02-helper-ignores-absence", "C02", "R2.4", FA,
+  """        if self.state == BaseFacilityState.ABSENCE:
+            return 0.0
+""", "")
+M("C02-no-clamp", "C02", "R2.5", WF,
+  """                    task.remaining_work_amount = 0.0
+""", "")
+M("C02-finish-check-under-working", "C02", "R2.7", PJ,
+  """        self.workflow.check_state(self.time, BaseTaskState.FINISHED)
+        self.product.check_state()
+        self.product.check_removing_placed_workplace()""",
+  """        self.product.check_removing_placed_workplace()
+        self.workflow.check_state(self.time, BaseTaskState.FINISHED)
+        self.product.check_state()""")
+M("C02-record-before-perform", "C02", "R2.7", PJ,
+  """            if working:
+                if mode == 1:
+                    self.__perform()
+            elif perform_auto_task_while_absence_time:
+                self.workflow.perform(self.time, only_auto_task=True)
+            self.__record(working=working)""",
+  """            self.__record(working=working)
+            if working:
+                if mode == 1:
+                    self.__perform()
+            elif perform_auto_task_while_absence_time:
+                self.workflow.perform(self.time, only_auto_task=True)""")
+M("C02-wrong-pairing-index", "C02", "R2.3", TK,
+  """                    facility = self.allocated_facility_list[i]""",
+  """                    facility = self.allocated_facility_list[0]""")
+M("C02-initial-remaining-ignores-progress", "C02", "R2.6", TK,
+  """            self.remaining_work_amount = self.default_work_amount * (1.0 - self.default_progress)
+            self.state = BaseTaskState.NONE""",
+  """            self.remaining_work_amount = self.default_work_amount
+            self.state = BaseTaskState.NONE""")
+M("C02-extra-writer-in-record", "C02", "R2.1", TK,
+  """        self.remaining_work_amount_record_list.append(self.remaining_work_amount)""",
+  """        self.remaining_work_amount = max(self.remaining_work_amount, 0.0)
+        self.remaining_work_amount_record_list.append(self.remaining_work_amount)""")
+M("C02-finish-threshold-loose", "C02", "R2.5", WF,
+  """task.remaining_work_amount < 0.0 + error_tol, self.task_list""",
+  """task.remaining_work_amount < 0.5 + error_tol, self.task_list""")
+M("C02-worker-contributes-twice", "C02", "R2.3", TK,
+  """                    work_amount_progress = work_amount_progress + worker.get_work_amount_skill_progress(self.name, seed=seed)""",
+  """                    work_amount_progress = work_amount_progress + 2 * worker.get_work_amount_skill_progress(self.name, seed=seed)""")
+M("C02-siblings-diverge", "C02", "R2.4", FA,
+  """        return base_progress / float(sum_of_working_task_in_this_time)""",
+  """        return base_progress""")
+B("benign-perform-augassign", ["C02"], TK,
+  """            self.remaining_work_amount = self.remaining_work_amount - work_amount_progress""",
+  """            self.remaining_work_amount -= work_amount_progress""")
